@@ -72,7 +72,25 @@ def model(repo):
     st = call
     while not isinstance(st, ast.stmt):
         st = st._parent
-    if not (isinstance(st, ast.Assign) and len(st.targets) == 1 and isinstance(st.targets[0], ast.Name) and st.value is call):
+    # the record must be produced afresh for every cell on every save: it embeds keys of the string, format and style
+    # lists that the save has just rebuilt
+    guards = []
+    q = st
+    while getattr(q, "_parent", None) is not None and q._parent is not loop:
+        q = q._parent
+        if isinstance(q, ast.If):
+            guards.append(U(q.test))
+    if isinstance(st, ast.Assign) and len(st.targets) == 1 and isinstance(st.targets[0], ast.Attribute) and st.value is call:
+        kept = U(st.targets[0])
+        P(f"the record is kept in `{kept}`" + (f" and only re-encoded when `{guards[0]}`" if guards else "") +
+          ": a record from an earlier save carries keys of lists that this save has renumbered (text cells reopen empty or with another cell's text)")
+        later = [n for n in loop.body if isinstance(n, ast.Assign) and len(n.targets) == 1 and isinstance(n.targets[0], ast.Name) and U(n.value) == kept]
+        if not later:
+            raise AnalysisError("recalculate_row_info: the kept record is not read back into a local")
+        st = later[0]
+    elif guards and isinstance(st, ast.Assign) and len(st.targets) == 1 and isinstance(st.targets[0], ast.Name) and st.value is call:
+        P(f"the cell is only re-encoded when `{guards[0]}`: otherwise a record from an earlier save is reused")
+    elif not (isinstance(st, ast.Assign) and len(st.targets) == 1 and isinstance(st.targets[0], ast.Name) and st.value is call):
         raise AnalysisError("recalculate_row_info: `<name> = <cell>._to_buffer()` not found")
     B = st.targets[0].id
     if col is None:
